@@ -167,6 +167,13 @@ class Runtime:
                 cls.frozen = "frozen=True" in txt
         if any(b.kind == "namedtuple" for b in cls.bases):
             cls.kind = "namedtuple"
+        undecorated_dc_child = False
+        if cls.kind == "plain" and any(b.kind == "dataclass" for b in cls.bases):
+            # a subclass of a dataclass that is not decorated itself inherits the generated __init__/__eq__:
+            # its own annotations do not add fields
+            cls.kind = "dataclass"
+            cls.frozen = any(b.frozen for b in cls.bases if b.kind == "dataclass")
+            undecorated_dc_child = True
         # fields (dataclass / namedtuple), including inherited ones
         if cls.kind in ("dataclass", "namedtuple"):
             fields, defaults = [], {}
@@ -176,9 +183,7 @@ class Runtime:
                         if f not in fields:
                             fields.append(f)
                     defaults.update(b.field_defaults)
-            for f in info.ann_fields:
-                if f.startswith("_") and cls.kind == "dataclass" and f not in info.ann_defaults:
-                    pass
+            for f in ([] if undecorated_dc_child else info.ann_fields):
                 if f not in fields:
                     fields.append(f)
                 if f in info.ann_defaults:
